@@ -1005,7 +1005,11 @@ MANIFEST = {
             "(returns a maximum-cardinality matching) is a parameter of the theorems and is certified per run — every probe of the "
             "real run is re-checked to be a matching of the claimed size and its maximality is certified by a König vertex cover "
             "verified by the Lean checker. The driver's own oracle is untrusted too: `bn` answers only values its verified "
-            "certificate checker accepts. [T]: hash-seed subprocess runs, exhaustive/certified comparison on the real code.",
+            "certificate checker accepts. [T]: hash-seed subprocess runs, exhaustive/certified comparison on the real code. "
+            "A failing input is claimed only inside the statement's quantifier (finite births, deaths finite or +inf, birth <= death, "
+            "(n,2) or empty in any accepted form): the call returns, the value is within 1e-9*largest |coordinate| of the certified optimum "
+            "and SOME warning is raised when a +inf death is dropped; warning wording, NaN/-inf deaths, a third column and bit-for-bit "
+            "equality are compared with the model only (correspondence breaks).",
     "technique": "Lean 4 theorems over a hand-written model (oracle as parameter) + differential correspondence + verified certificate checkers",
 }
 MANIFEST["note"] += " " + py2lean.manifest_note("bottleneck")
